@@ -98,6 +98,16 @@ AccIdx == { p \in [fam : {"acc"}, k : KSel(1, 3), o : 1..3, f : 1..4, r : 1..9, 
               /\ (p.l = 3 => p.r = 8 /\ p.f # 4)
               /\ Thin(p.k + p.o * 3 + p.f * 5 + p.r * 7 + p.v * 11 + p.l * 13 + p.d * 17, IF Tier = "t" THEN 1 ELSE 23) }
 
+\* ------------------------------------------------------------------ family "expr": the expression boundary (a new variable takes the result)
+\* p: k kind, o op, r constant, v value class
+FamExpr(p) ==
+  LET k == NumKindSeq[p.k]
+  IN  P0(<<SVar("a", T(k), TL(k, p.v)), SDef("r", Bin(AccOps[p.o], V("a"), ConstE[p.r])), PrA("r", "r"),
+           SDef("q", Bin(AccOps[p.o], ConstE[p.r], V("a"))), PrA("q", "q"),
+           SIf(Bin(">", Bin(AccOps[p.o], V("a"), ConstE[p.r]), V("a")), <<SPr(<<PL("grew")>>)>>, <<SPr(<<PL("not")>>)>>)>>)
+ExprIdx == { p \in [fam : {"expr"}, k : KSel(15, 3), o : 1..3, r : 1..NConst, v : {1, 2, 4}] :
+               Thin(p.k + p.o * 3 + p.r * 5 + p.v * 7, IF Tier = "t" THEN 1 ELSE 4) }
+
 \* ------------------------------------------------------------------ family "cmp": comparison of a typed variable with a constant
 \* p: k kind, o (1 < 2 <= 3 != 4 > 5 >=), c constant form (1 integer literal, 2 float literal x.0, 3 lossy x.5), s step (1 n = n + 1, 2 n++, 3 n += 1)
 FamCmp(p) ==
@@ -403,10 +413,11 @@ GlobIdx == [fam : {"glob"}, k : KSel(14, 3), v : {2, 4}]
 
 \* ------------------------------------------------------------------ the table
 NegIdx == { [fam |-> "acc", k |-> kk, o |-> 1, f |-> 1, r |-> rr, v |-> 4, l |-> ll, d |-> 1] : kk \in {1, 3, 6}, rr \in {1, 4}, ll \in {1, 4} }
+          \cup { [fam |-> "expr", k |-> kk, o |-> 1, r |-> 1, v |-> vv] : kk \in {1, 3}, vv \in {2, 4} }
 Index == IF Tier = "neg" THEN NegIdx
-         ELSE AccIdx \cup CmpIdx \cup CallIdx \cup AsgbIdx \cup ClosIdx \cup SliceIdx \cup MapIdx \cup StructIdx \cup SwitchIdx
+         ELSE AccIdx \cup ExprIdx \cup CmpIdx \cup CallIdx \cup AsgbIdx \cup ClosIdx \cup SliceIdx \cup MapIdx \cup StructIdx \cup SwitchIdx
               \cup LoopsIdx \cup MultiIdx \cup DeferIdx \cup TextIdx \cup GlobIdx
-Build(p) == CASE p.fam = "acc" -> FamAcc(p) [] p.fam = "cmp" -> FamCmp(p) [] p.fam = "call" -> FamCall(p) [] p.fam = "asgb" -> FamAsgb(p)
+Build(p) == CASE p.fam = "acc" -> FamAcc(p) [] p.fam = "expr" -> FamExpr(p) [] p.fam = "cmp" -> FamCmp(p) [] p.fam = "call" -> FamCall(p) [] p.fam = "asgb" -> FamAsgb(p)
               [] p.fam = "clos" -> FamClos(p) [] p.fam = "slice" -> FamSlice(p) [] p.fam = "map" -> FamMap(p) [] p.fam = "struct" -> FamStruct(p)
               [] p.fam = "switch" -> FamSwitch(p) [] p.fam = "loops" -> FamLoops(p) [] p.fam = "multi" -> FamMulti(p) [] p.fam = "defer" -> FamDefer(p)
               [] p.fam = "text" -> FamText(p) [] p.fam = "glob" -> FamGlob(p)
